@@ -15,7 +15,7 @@ import (
 // Validates json according to jSchema's ObjectNode.
 
 type objectValidator struct {
-	requiredKeys map[string]int
+	requiredKeys map[requiredKey]int
 
 	// node_ an object or mixed.
 	node_   schema.Node
@@ -27,6 +27,13 @@ type objectValidator struct {
 	lastFoundKeyLex lexeme.LexEvent
 }
 
+// requiredKey is a required entry of the object: a property or a key shortcut
+// (`@type: value`), which may be spelled alike (`"@type": value`).
+type requiredKey struct {
+	key        string
+	isShortcut bool
+}
+
 func newObjectValidator(node schema.Node, parent validator, rootSchema schema.Schema) *objectValidator {
 	switch node.(type) {
 	case *schema.ObjectNode, *schema.MixedNode, *schema.MixedValueNode:
@@ -34,7 +41,7 @@ func newObjectValidator(node schema.Node, parent validator, rootSchema schema.Sc
 			node_:        node,
 			parent_:      parent,
 			rootSchema:   rootSchema,
-			requiredKeys: make(map[string]int, 5),
+			requiredKeys: make(map[requiredKey]int, 5),
 		}
 		v.initRequiredKeys()
 		return &v
@@ -46,8 +53,9 @@ func newObjectValidator(node schema.Node, parent validator, rootSchema schema.Sc
 func (v *objectValidator) initRequiredKeys() {
 	requiredKeysConstraint := v.node_.Constraint(constraint.RequiredKeysConstraintType)
 	if requiredKeysConstraint != nil {
-		for i, k := range requiredKeysConstraint.(*constraint.RequiredKeys).Keys() {
-			v.requiredKeys[k] = i
+		c := requiredKeysConstraint.(*constraint.RequiredKeys) //nolint:errcheck // We're sure about this type.
+		for i, k := range c.Keys() {
+			v.requiredKeys[requiredKey{key: k, isShortcut: c.IsShortcut(i)}] = i
 		}
 	}
 }
@@ -109,7 +117,7 @@ func (v *objectValidator) feedObjectKeyEnd(jsonLexeme lexeme.LexEvent) {
 		// Only a property with this very key is found by it: a document key spelled
 		// like the name of a key shortcut (`"@id"` against `@id: 1`) does not stand
 		// for the shortcut, which is found when a key of its type arrives.
-		delete(v.requiredKeys, key)
+		delete(v.requiredKeys, requiredKey{key: key})
 	}
 }
 
@@ -126,7 +134,7 @@ func (v *objectValidator) feedObjectValueBegin() ([]validator, bool) {
 		if key, ok := v.validateTypeRules(objectNode, v.lastFoundKeyLex.Value()); ok {
 			child, ok := objectNode.ChildByRawKey([]byte(key))
 			if ok {
-				delete(v.requiredKeys, key)
+				delete(v.requiredKeys, requiredKey{key: key, isShortcut: true})
 				return NodeValidatorList(child, v.rootSchema, v), false
 			}
 		}
@@ -142,7 +150,7 @@ func (v *objectValidator) feedObjectValueBegin() ([]validator, bool) {
 }
 
 func (v objectValidator) requiredKeysString() string {
-	keys := make([]string, 0, 5)
+	keys := make([]requiredKey, 0, 5)
 	for k := range v.requiredKeys {
 		keys = append(keys, k)
 	}
@@ -150,7 +158,11 @@ func (v objectValidator) requiredKeysString() string {
 	sort.Slice(keys, func(i, j int) bool {
 		return v.requiredKeys[keys[i]] < v.requiredKeys[keys[j]]
 	})
-	return strings.Join(keys, ", ")
+	names := make([]string, 0, len(keys))
+	for _, k := range keys {
+		names = append(names, k.key)
+	}
+	return strings.Join(names, ", ")
 }
 
 // validateTypeRules looks for a key shortcut (`@type: value`) of the object whose
